@@ -150,7 +150,7 @@ func metaScripts(maxLen int) []nsqd.MetaSpec {
 
 func checkC06(tier string) int {
 	rep := vx.NewReport("C06", tier, "fault_enumeration")
-	rep.Rule = "E4: every script of <= N admin operations (create/delete/pause/unpause of topics and channels, durable and ephemeral, over the real HTTP handlers) (+ scripts whose last step is two requests in flight at once: identical, conflicting, create vs delete) x every schedule with <= d deviations (E2) x every prefix of the file-effect log of nsqd.dat* x loss variants of unsynced data (all / none / torn); each image is loaded by the real New+LoadMetadata (+ a second restart cycle); plus, for the scripts of <= 2 steps, every write / fsync / rename / open of nsqd.dat* failing in turn (short write + ENOSPC) followed by every crash point. distinct = distinct (script, answer codes) outcomes; evaluations = images judged"
+	rep.Rule = "E4: every script of <= N admin operations (create/delete/pause/unpause of topics and channels, durable and ephemeral, over the real HTTP handlers) (+ scripts whose last step is two requests in flight at once: identical, conflicting, create vs delete; + a graceful shutdown as last step, alone or with a request in flight) x every schedule with <= d deviations (E2) x every prefix of the file-effect log of nsqd.dat* x loss variants of unsynced data (all / none / torn); each image is loaded by the real New+LoadMetadata (+ a second restart cycle); plus, for the scripts of <= 2 steps, every write / fsync / rename / open of nsqd.dat* failing in turn (short write + ENOSPC) followed by every crash point. distinct = distinct (script, answer codes) outcomes; evaluations = images judged"
 	rep.Assumptions = []string{"rename/unlink are atomic and durable once returned (no directory fsync modelled)", "unsynced written data may be fully present, fully lost, or torn in the middle", "idle = quiescence of every daemon goroutine"}
 	maxLen, bound, secs := 2, 1, 20
 	if tier == "thorough" {
@@ -169,6 +169,11 @@ func checkC06(tier string) int {
 			{"pause:a", "pausech:a:x"}, {"pause:a", "mkch:a:y"}, {"pausech:a:x", "rmch:a:x"}, {"pause:a", "rm:a"}, {"mkch:a:y", "rmch:a:x"}, {"rm:a", "mk:b"}, {"mk:b", "mk:b"}, {"rmch:a:x", "rmch:a:x"}, {"rm:a", "rm:a"}} {
 			specs = append(specs, nsqd.MetaSpec{Steps: append(append([]string{}, pre...), pr[0]+"||"+pr[1])})
 		}
+	}
+	// a graceful shutdown as the last step, alone and with a request still in flight (its
+	// asynchronous persist may run after Exit has closed the topics)
+	for _, last := range []string{"exit", "mkch:a:y||exit", "mk:b||exit", "pausech:a:x||exit", "rmch:a:x||exit", "rm:a||exit"} {
+		specs = append(specs, nsqd.MetaSpec{Steps: []string{"mk:a", "mkch:a:x", last}})
 	}
 	for _, pr := range [][2]string{{"unpause:a", "unpause:a"}, {"unpausech:a:x", "unpausech:a:x"}} {
 		specs = append(specs, nsqd.MetaSpec{Steps: []string{"mk:a", "mkch:a:x", "pause:a", "pausech:a:x", pr[0] + "||" + pr[1]}})
